@@ -133,6 +133,16 @@ int main(int argc, char** argv) {
           { SU_vector q = SU_vector(v).UDaggerTransform(Ug.get()); cmpvec("UDaggerTransform(U):temporary-operand", d, q, wantB0, tol, ctx); }
           { SU_vector tg(d == 2 ? 3 : 2); tg = v.UTransform(Ug.get()); cmpvec("UTransform(U):assigned-to-other-size", d, tg, wantB1, tol, ctx); SU_vector te; te = SU_vector(v).UDaggerTransform(Ug.get()); cmpvec("UDaggerTransform(U):temporary-assigned-to-empty", d, te, wantB0, tol, ctx); }
           { SU_vector q = mkvec(d, al.vecs[a]); SU_vector tmp = SU_vector(q); tmp.RotateToB1(par); cmpvec("RotateToB1:on-a-copy", d, tmp, wantB1, tol, ctx); }
+          for (double sc : {1e9, 1e12, 1e150, 1e-150}) {   // every map is linear: the same vector scaled by sc must give the scaled result, through every entry point
+            SU_vector big = mkvec(d, scaled(al.vecs[a], sc)); std::vector<double> w1 = B_proj_scaled(d, wantB1, sc), w0 = B_proj_scaled(d, wantB0, sc); double tl = tol * sc; count("evaluations");
+            try { SU_vector q1 = big.Rotate(Ug.get()), q2 = big.UTransform(Ug.get()), q3 = big.UDaggerTransform(Ug.get()); SU_vector q4 = big; q4.RotateToB1(par); SU_vector q5 = big; q5.RotateToB0(par);
+              double e = std::max(std::max(maxdiff(comps(q1), w1), maxdiff(comps(q2), w1)), std::max(maxdiff(comps(q3), w0), std::max(maxdiff(comps(q4), w1), maxdiff(comps(q5), w0))));
+              if (!(e <= tl)) violation("basis-change:not-homogeneous:d=" + std::to_string(d), "{\"ctx\":" + ctx + ",\"scale\":" + jnum(sc) + ",\"err\":" + jnum(e) + ",\"tol\":" + jnum(tl) + "}");
+              SU_vector x1 = big, x2 = big; x1.WeightedRotation(par, Yd, par2); x2.WeightedRotation(Ug.get(), Yd, Wg.get()); double ew = maxdiff(comps(x1), comps(x2));
+              double wtol_s = 2 * tol * (1 + 16 * maxabs(yd) * maxabs(yd)) * d * sc;
+              if (!(ew <= wtol_s)) violation("WeightedRotation:overloads-disagree:scaled-vector:d=" + std::to_string(d), "{\"ctx\":" + ctx + ",\"scale\":" + jnum(sc) + ",\"err\":" + jnum(ew) + "}"); }
+            catch (const std::exception& ex) { violation("basis-change:throws-for-scaled-vector:d=" + std::to_string(d), "{\"ctx\":" + ctx + ",\"scale\":" + jnum(sc) + ",\"what\":" + jstr(ex.what()) + "}"); }
+          }
           count("evaluations");
         }
         if (a + 3 >= al.vecs.size()) {   // the same U as a strided view inside a larger matrix
